@@ -19,6 +19,7 @@ import (
 )
 
 var ctx *engine.Ctx
+var vlqStable engine.Stable
 
 type countWriter struct {
 	buf bytes.Buffer
@@ -113,12 +114,26 @@ func cfgs(full bool) []sp.Cfg {
 	return []sp.Cfg{out[0], out[2], out[5], out[7], out[8], out[11]}
 }
 
+// fromRead turns configurations into "start from a value read from a file".
+func fromRead(cs []sp.Cfg) []sp.Cfg {
+	var out []sp.Cfg
+	for i, c := range cs {
+		c.FromRead = 1 + i%2
+		out = append(out, c)
+	}
+	return out
+}
+
 func plans() []sp.Plan {
 	return []sp.Plan{
 		{Name: "full-alphabet", Cfgs: cfgs(true), AlName: "full", Deltas: []uint32{0, 1, 128}, CloseDeltas: []uint32{0, 1},
 			Add2: true, MaxEvents: ctx.Pick(2, 3), MaxTracks: 2},
 		{Name: "small-alphabet-deeper", Cfgs: cfgs(true), AlName: "small", Deltas: []uint32{0, 128}, CloseDeltas: []uint32{0},
 			Add2: false, MaxEvents: ctx.Pick(3, 4), MaxTracks: ctx.Pick(2, 3)},
+		{Name: "write-in-history", Cfgs: cfgs(false), AlName: "tiny", Deltas: []uint32{0, 1}, CloseDeltas: []uint32{0},
+			Write: true, MaxWrites: 2, MaxEvents: ctx.Pick(3, 4), MaxTracks: 3},
+		{Name: "from-read-then-extend", Cfgs: fromRead(cfgs(false)), AlName: "tiny", Deltas: []uint32{0, 1}, CloseDeltas: []uint32{0},
+			Write: true, MaxWrites: 1, MaxEvents: ctx.Pick(3, 4), MaxTracks: 4},
 		{Name: "tiny-alphabet-deepest", Cfgs: cfgs(ctx.Thorough()), AlName: "tiny", Deltas: []uint32{0, 1}, CloseDeltas: []uint32{0},
 			Add2: true, MaxEvents: ctx.Pick(4, 6), MaxTracks: ctx.Pick(2, 3)},
 	}
@@ -131,8 +146,12 @@ func vlqRange(lo, hi uint64) {
 		v := uint32(n)
 		enc := utils.VlqEncode(v)
 		bad := ""
+		if ok, _, _ := vlqStable.Next(enc); !ok {
+			bad = "aliasing"
+		}
 		want := refsmf.VLQ(v)
 		switch {
+		case bad != "":
 		case !bytes.Equal(enc, want):
 			bad = "encoding"
 		case utils.VlqDecode(enc) != v:
